@@ -101,6 +101,22 @@ static inline uint64_t spec_full_line(uint32_t a, uint32_t b)
   return spec_ray(ray, a) | spec_ray((ray + 4) & 7, a) | SPEC_BIT(a);
 }
 
+/* does a rook-like (diag == 0) or bishop-like (diag == 1) slider on s see square t: aligned on a line of that kind and every
+ * square strictly between them empty in occ (the end squares themselves may be occupied) */
+static inline _Bool spec_sees(int diag, uint32_t s, uint32_t t, uint64_t occ)
+{
+  int ray = spec_dir(s, t);
+  if (ray < 0 || ((ray & 1) == 0) != (diag != 0)) return 0;
+  int f = (int)(s & 7), r = (int)(s >> 3); _Bool open_ = 1, reached = 0;
+  for (int i = 1; i < 8; i++) {
+    int ff = f + i * spec_df(ray), rr = r + i * spec_dr(ray);
+    if (!reached && spec_on_board(ff, rr)) {
+      if ((uint32_t)(rr * 8 + ff) == t) reached = 1;
+      else if ((occ >> (rr * 8 + ff)) & 1) open_ = 0;
+    }
+  }
+  return reached && open_;
+}
 /* bit deposit / extract over a mask with at most 12 bits (the relevant-occupancy masks have 5..12):
  * bit i of the index (from the least significant end) stands for the i-th lowest square of the mask */
 static inline uint64_t spec_pdep(uint32_t idx, uint64_t mask)
